@@ -65,3 +65,60 @@ def canon_iters(line):
     if line.startswith("iters"):
         return "iters " + " ".join(map(str, sorted(int(x) for x in line.split()[1:])))
     return line
+
+
+def run_property(pid_prop, tier, *, modules, theorems, trusted, group, build, oracle, rule, what, known=None, replay=None, nbins=8, canon=None):
+    """common skeleton of the tie-B checks.
+    build(rng, tier) -> (progs {pid: prog}, rust modules [(pid, text)] or None, cases [Case])
+    oracle(case, prog, out_lines) -> None | why   (the property, decided without the Lean model)"""
+    r = core.Report(pid_prop, tier)
+    rng = core.SplitMix(core.seed()).fork("ENG")
+    if os.environ.get("VERIF_DEV_SKIP_PROOF"):
+        proof = core.ProofResult(); core.run(["lake", "build", "driver"], cwd=core.LEAN)
+    else:
+        proof = core.lean_prove(modules, leanchecker=(tier == "thorough"))
+        core.require_theorems(proof, theorems)
+    r.proof(proof, "lake build " + " ".join(modules) + " && #audit_module (axioms of every theorem)" + (" && lake env leanchecker" if tier == "thorough" else ""))
+    progs, mods, cases = build(rng, tier if proof.ok else "thorough")
+    res = run_cases(r, group, progs, cases, modules=mods, model=proof.ok or os.path.exists(core.lean_driver()), nbins=nbins)
+    if res is None: return r.finish(trusted)
+    outs, _ = res
+    d = tiec.Decision(r)
+    hist = {}
+    for c, (io, mo) in zip(cases, outs):
+        p = progs[c.pid]
+        text = f"eng prog {c.pid} {eng.sx_prog(p)}\n" + "\n".join(c.ops)
+        def orc(_l, out, c=c, p=p):
+            return oracle(c, p, out.split("\n"))
+        if canon:
+            io_c, mo_c = canon(c, io), (canon(c, mo) if mo is not None else None)
+        else:
+            io_c, mo_c = io, mo
+        kn = (lambda _l, i, m, c=c, p=p: known(c, p, i.split("\n"), None if m is None else m.split("\n"))) if known else None
+        full = "\n".join(io)
+        def orc2(_l, out, orc=orc, full=full, io_c=io_c):
+            # the oracle always judges the implementation's full output; the model's (canonicalised) output is judged as is
+            return orc(_l, full) if out == "\n".join(io_c) else None
+        d.case(text, "\n".join(io_c), None if mo_c is None else "\n".join(mo_c), orc2 if canon else orc, nontrivial=c.meta.get("nontrivial", True), known=kn)
+        k = c.meta.get("kind", "case"); hist[k] = hist.get(k, 0) + 1
+    if cases:
+        r.sample({"program": eng.rs_program(progs[cases[0].pid]), "history": cases[0].ops, "impl": outs[0][0]})
+    r.cov["programs"] = len(progs)
+    r.cov["case_kinds"] = hist
+    r.cov["rule"] = rule
+    d.conclude(proof, what)
+    return r.finish(trusted)
+
+
+def std_history(inst, pid, inp, extra=()):
+    return [f"eng new {inst} {pid}"] + load_ops(inst, inp) + [f"eng run {inst}", f"eng dump {inst}"] + list(extra)
+
+
+def check_sets(p, dump, spec):
+    if not dump.startswith("r0:"): return f"run/dump failed: {dump}"
+    sets, mult = dump_sets(dump)
+    for rel in range(len(p["rels"])):
+        got, exp = sets.get(rel, set()), spec[rel]
+        if got != exp:
+            return f"relation r{rel}: missing {sorted(exp - got)[:5]} unexpected {sorted(got - exp)[:5]} (expected {len(exp)} tuples)"
+    return None
